@@ -286,7 +286,7 @@ Definition Parse (z : Dec) (s : bytes) (base : Z) : pres :=
         else
           match dscan_dec z s base with
           | POk z' b [] => POk z' b []
-          | POk z' b (_ :: _) => PErr z' false     (* "expected end of string": d stays non-nil *)
+          | POk z' b (_ :: _) => PErr z' true      (* "expected end of string" *)
           | r => r
           end
     | [] => dscan_dec z s base
